@@ -7,11 +7,12 @@ _NPTS = 199            # magnitudes 0.5 + 2.0*j/199  ->  spacing 0.01005
 _GEN = 37              # 37 generates Z_199 additively (199 prime)
 
 def _mags(n, salt):
-    if n > _NPTS:
+    if n > 10 * _NPTS:
         raise harness.HarnessError(f"value table too small for {n} separated values")
     k = np.arange(n)
     idx = (salt * 11 + 5 + _GEN * k) % _NPTS
-    return 0.5 + 2.0 * idx / _NPTS
+    # beyond 199 values further cycles are offset by 0.00093 (distinct; kink-sensitive ops never need that many values)
+    return 0.5 + 2.0 * idx / _NPTS + 0.00093 * (k // _NPTS)
 
 def generic(shape, salt=0, seed=None):
     """mixed sign, |v| in [0.5, 2.5], distinct magnitudes"""
